@@ -406,4 +406,86 @@ theorem vrSegs_readable (c : Cfg) (oc : Bytes → BodyOutcome) (data : Bytes) : 
       | nil => simp at hm
       | cons x xs => simp at hm
 
+
+def vsrSuffixes : List (List Seg) := [vsrSegs, vsrSegs.tail, vsrSegs.tail.tail]
+
+/-- invariant of ValidateSecurityRequirements for a request with body `data` -/
+def InvK (data : Bytes) (s : KSt) : Prop := Coherent s.req data ∧ ∀ x ∈ s.seen, x = data
+
+theorem stepK_vsr_inv (c : Cfg) (oc : Bytes → BodyOutcome) (data : Bytes) (s s1 : KSt) (hi : InvK data s)
+    (hr : runK c oc [.call "validateSecurityRequirement"] s = some s1) : InvK data s1 := by
+  obtain ⟨req, seen, pend⟩ := s
+  cases pend with
+  | nil => simp [runK, stepK] at hr
+  | cons q rest =>
+    simp [runK, stepK] at hr; subst hr
+    obtain ⟨i1, _, i3⟩ := secReq_coherent c.hasAuthFunc req q data hi.1
+    refine ⟨i1, ?_⟩
+    intro x hx
+    simp only [List.mem_append] at hx
+    rcases hx with hx | hx
+    · exact hi.2 x hx
+    · exact i3 x hx
+
+theorem vsrSegs_readable (c : Cfg) (oc : Bytes → BodyOutcome) (data : Bytes) : ∀ sg t, SegPath sg t → sg ∈ vsrSuffixes →
+    ∀ s s', InvK data s → runK c oc t s = some s' → InvK data s' := by
+  intro sg t hp
+  induction hp with
+  | done => intro h; simp [vsrSuffixes, vsrSegs] at h
+  | straightRet ps rest t hm =>
+    intro h s s' hi hr
+    simp [vsrSuffixes, vsrSegs] at h
+    rcases h with ⟨rfl, rfl⟩ | ⟨rfl, rfl⟩
+    · simp at hm; subst hm; simp [runK] at hr; subst hr; exact hi
+    · simp at hm; subst hm; simp [runK] at hr; subst hr; exact hi
+  | straightFall ps rest t u hm hp ih =>
+    intro h s s' hi hr
+    simp [vsrSuffixes, vsrSegs] at h
+    rcases h with ⟨rfl, rfl⟩ | ⟨rfl, rfl⟩
+    · simp at hm; subst hm
+      exact ih (by simp [vsrSuffixes, vsrSegs]) s s' hi (by simpa using hr)
+    · simp at hm
+  | loopExit ps rest u hp ih =>
+    intro h s s' hi hr
+    simp [vsrSuffixes, vsrSegs] at h
+    obtain ⟨rfl, rfl⟩ := h
+    exact ih (by simp [vsrSuffixes, vsrSegs]) s s' hi hr
+  | loopFall ps rest t u hm hp ih =>
+    intro h
+    simp [vsrSuffixes, vsrSegs] at h
+    obtain ⟨rfl, rfl⟩ := h
+    simp at hm
+  | loopRet ps rest t hm =>
+    intro h s s' hi hr
+    simp [vsrSuffixes, vsrSegs] at h
+    obtain ⟨rfl, rfl⟩ := h
+    simp at hm
+    rcases hm with rfl | rfl
+    · simp [runK, stepK] at hr
+    · exact stepK_vsr_inv c oc data s s' hi hr
+  | loopCont ps rest t u hm hp ih =>
+    intro h s s' hi hr
+    have h' := h
+    simp [vsrSuffixes, vsrSegs] at h'
+    obtain ⟨rfl, rfl⟩ := h'
+    obtain ⟨s1, hr1, hr2⟩ := runK_append_some _ _ _ _ _ _ hr
+    cases t with
+    | nil => simp at hm
+    | cons x xs =>
+      cases xs with
+      | nil =>
+        simp at hm; subst hm
+        exact ih h s1 s' (stepK_vsr_inv c oc data s s1 hi hr1) hr2
+      | cons y ys => simp at hm
+  | loopBrk ps rest t u hm hp ih =>
+    intro h
+    simp [vsrSuffixes, vsrSegs] at h
+    obtain ⟨rfl, rfl⟩ := h
+    cases t with
+    | nil => simp at hm
+    | cons x xs =>
+      cases xs with
+      | nil => simp at hm
+      | cons y ys => simp at hm
+
 end KinModel.C13.Trace
